@@ -111,6 +111,32 @@ def generate(rng, n, tier="quick"):
         c = session({"escape": "none"}, templates, {"api": "render", "name": "main"}, data)
         c["id"] = "%s-%s" % (ID, idn)
         out.append((c, {"oracle": list(expect)}))
+    # the same precedence when the registered template is tracked by a FILE, in dev mode (where every render reloads it) and out of
+    # it, the including template registered from a string or from a file too
+    from ..gen import enc as _enc
+    for dev in (False, True):
+        for main_file in (False, True):
+            for k, (psrc, msrc, exp) in enumerate([
+                    ("registered:{{n}}", "{{> p}}|{{#*inline \"p\"}}inline:{{n}}{{/inline}}{{> p}}|{{#> p}}dflt{{/p}}|{{#each l}}{{> p}}{{/each}}", "registered:1|inline:1|inline:1|inline:inline:"),
+                    ("REG", "{{#*inline \"p\"}}A{{/inline}}{{> p}}{{#*inline \"p\"}}B{{/inline}}{{> p}}{{#with o}}{{> p}}{{/with}}", "ABB"),
+                    ("REG{{> @partial-block}}", "{{#> p}}x{{/p}}|{{#*inline \"q\"}}I{{/inline}}{{#> p}}{{> q}}{{/p}}", "REGx|REGI")]):
+                ops = ([{"op": "set_dev", "reg": 0, "v": True}] if dev else []) + [
+                    {"op": "write_file", "file": "fp", "content": psrc}, {"op": "reg_file", "reg": 0, "name": "p", "file": "fp"}]
+                if main_file:
+                    ops += [{"op": "write_file", "file": "fm", "content": msrc}, {"op": "reg_file", "reg": 0, "name": "main", "file": "fm"}]
+                else:
+                    ops += [{"op": "reg_string", "reg": 0, "name": "main", "src": msrc}]
+                ops += [{"op": "render", "reg": 0, "api": "render", "name": "main", "data": _enc({"n": 1, "l": [1, 2], "o": {"x": 1}})}]
+                c = {"kind": "session", "regs": [{"escape": "none"}], "ops": ops, "id": "%s-filepart-%d%d%d" % (ID, dev, main_file, k)}
+                out.append((c, {"oracle": ["must", exp]}))
+    # an inline partial defined in the BODY of a block call under the block's own name is defined before the name is looked up
+    directed("inline-named-like-block", [("main", "{{#> x}}{{#*inline \"x\"}}I{{/inline}}D{{/x}}")], {}, ("must", "I"))
+    directed("inline-named-like-block-registered", [("x", "REG[{{> @partial-block}}]"), ("main", "{{#> x}}{{#*inline \"x\"}}I({{n}}){{/inline}}D{{/x}}|{{> x}}")], {"n": 1},
+             ("must", "I(1)|I(1)"))
+    directed("inline-in-block-body-visible-inside", [("lay", "<{{> title}}|{{> @partial-block}}>"), ("main", "{{#> lay}}{{#*inline \"title\"}}T{{/inline}}body{{/lay}}")], {},
+             ("must", "<T|body>"))
+    directed("block-body-decorator-params-in-caller-scope", [("p", "[{{> i}}]"), ("main", "{{#with o}}{{#> p}}{{#*inline \"i\"}}{{v}}{{../w}}{{/inline}}{{/p}}{{/with}}")],
+             {"o": {"v": "V"}, "w": "W"}, ("any", "what an inline body sees when used inside the partial is the partial's scope; model and crate are compared"))
     directed("self", [("main", "x{{> main}}")], {}, ("musterr", ["CannotIncludeSelf"]))
     directed("self-after-block", [("main", "{{#if a}}x{{/if}}{{> main}}")], {"a": 1}, ("musterr", ["CannotIncludeSelf"]))
     directed("inline-shadows", [("p", "REG"), ("main", "{{> p}}|{{#*inline \"p\"}}INL{{/inline}}{{> p}}")], {}, ("must", "REG|INL"))
